@@ -7,7 +7,7 @@
 |segment: &&str| -> (o: Option<String>) ensures o == var_of(seg_of(segment@))
 //@ closure 1
 |p: &ApiEndpointParameter| -> (o: Option<String>) ensures o == path_name(p.metadata)
-//@ before "if !hashset_eq" 0
+//@ after "collect_set();" 1
         proof {
             assert forall|y: String| path@.contains(y) <==> is_template_var(e.path@, y) by {
                 if is_template_var(e.path@, y) {
